@@ -211,6 +211,11 @@ where
                                 verif_n_drained,
                             ));
 
+                            // Give every connection task (the ones we just spawned included) a chance
+                            // to run before we signal the shutdown: `hyper-util` drops, without
+                            // a response, connections that have not read their request yet.
+                            tokio::task::yield_now().await;
+
                             // Wait for all live connections to be closed or for the timeout to expire.
                             let _ = tokio::time::timeout(timeout, shutdown_coordinator.shutdown())
                                 .await;
